@@ -122,6 +122,15 @@ def analyse(text):
                     break
                 if isinstance(getattr(p_, 'ctx', None), (ast.Store, ast.Del)):
                     flags['expands_to_binding'] = True   # cursor-only selection grows to a target
+            # a cursor-only selection grows to the whole operator/trailer expression around it
+            top_ = node
+            for p_, child_ in ch:
+                if not isinstance(p_, (ast.Attribute, ast.Subscript, ast.Call, ast.BinOp, ast.BoolOp,
+                                       ast.Compare, ast.UnaryOp, ast.Await)):
+                    break
+                top_ = p_
+            if any(isinstance(x, ast.Await) for x in ast.walk(top_)):
+                flags['cursor_expands_to_await'] = True
             if isinstance(node, ast.Starred):
                 pure = False
                 why.append('starred')
